@@ -657,6 +657,57 @@ fn compare(canon: &Sig, got: &Sig, c: &Case, lx: &mut Local) {
     lx.count("routine_results_compared", compared);
 }
 
+/// Outcome of the routines that can fail, as text that does not depend on the representation
+/// (errors as they are, arrays as shape + values).
+fn outcome<D: Dimension, E: std::fmt::Debug>(r: Result<Array<i32, D>, E>) -> String {
+    match r {
+        Ok(a) => format!("Ok(shape {:?}, values {:?})", a.shape(), a.iter().cloned().collect::<Vec<_>>()),
+        Err(e) => format!("Err({:?})", e),
+    }
+}
+
+/// Every fallible entry point on one representation of an i32 array; `make` builds a fresh copy.
+fn fallible<S: DataMut<Elem = i32>, D: Dimension + RemoveAxis>(make: &dyn Fn() -> ArrayBase<S, D>, out: &mut Vec<(String, String)>) {
+    let nd = make().ndim();
+    let qs: [f64; 6] = [-0.5, -1e-300, 0.0, 0.5, 1.0, 1.0000000000000002];
+    for ax in 0..nd {
+        for q in qs {
+            let r = guarded(|| make().quantile_axis_mut(Axis(ax), n64(q), &Nearest).map(|x| x.into_dyn()));
+            out.push((format!("quantile_axis_mut(axis {}, q {:e})", ax, q), match r { Ok(r) => outcome(r), Err(m) => format!("panic: {}", m) }));
+        }
+        for ql in [vec![], vec![0.5], vec![0.5, 2.0], vec![-1.0, 0.5], vec![0.25, 0.75]] {
+            let qa = Array1::from(ql.iter().map(|&q| n64(q)).collect::<Vec<_>>());
+            let r = guarded(|| make().quantiles_axis_mut(Axis(ax), &qa, &Nearest).map(|x| x.into_dyn()));
+            out.push((format!("quantiles_axis_mut(axis {}, {:?})", ax, ql), match r { Ok(r) => outcome(r), Err(m) => format!("panic: {}", m) }));
+        }
+    }
+    let a = make();
+    out.push(("min".into(), format!("{:?}", guarded(|| a.min().map(|x| *x)))));
+    out.push(("max".into(), format!("{:?}", guarded(|| a.max().map(|x| *x)))));
+    out.push(("argmin is_ok".into(), format!("{:?}", guarded(|| a.argmin().is_ok()))));
+    out.push(("argmax is_ok".into(), format!("{:?}", guarded(|| a.argmax().is_ok()))));
+    out.push(("mean".into(), format!("{:?}", guarded(|| SummaryStatisticsExt::mean(&a)))));
+    out.push(("weighted_sum with itself".into(), format!("{:?}", guarded(|| a.weighted_sum(&a)))));
+    out.push(("sq_l2_dist with itself".into(), format!("{:?}", guarded(|| a.sq_l2_dist(&a)))));
+    out.push(("count_eq with itself".into(), format!("{:?}", guarded(|| a.count_eq(&a)))));
+}
+
+macro_rules! fallible_static {
+    ($dim:ty, $base:expr, $tag:expr, $sets:expr) => {{
+        let st: Array<i32, $dim> = $base.clone().into_dimensionality::<$dim>().unwrap();
+        let mut o = Vec::new();
+        fallible(&|| st.clone(), &mut o);
+        $sets.push((format!("{} static owned", $tag), o));
+        let mut o = Vec::new();
+        fallible(&|| st.clone().into_shared(), &mut o);
+        $sets.push((format!("{} static shared", $tag), o));
+        let mut o = Vec::new();
+        let f = st.clone().reversed_axes().as_standard_layout().into_owned().reversed_axes();
+        fallible(&|| f.clone(), &mut o);
+        $sets.push((format!("{} static column-major", $tag), o));
+    }};
+}
+
 fn main() {
     let mut rep = Report::new("C20");
     rep.rule = "case = (shape, fill, layout, ownership kind, static/dynamic dimensionality); every public routine is evaluated on the representation and compared with the same routine on the canonical owned C-order array; non-trivial = layout is not plain C order or ownership is not plain owned".into();
@@ -702,6 +753,83 @@ fn main() {
                         lx.fail("C20/panic", || format!("a routine panicked on the representation: {}; {:?}", m, c));
                         1
                     }
+                }
+            });
+        },
+    );
+    // errors and edge results across representations: empty axes, q outside [0, 1], empty request lists
+    let eshapes: Vec<Vec<usize>> = vec![vec![0], vec![1], vec![3], vec![0, 3], vec![3, 0], vec![2, 2], vec![2, 0, 2], vec![1, 2, 2]];
+    rep.run_sub(
+        "fallible-calls-across-representations",
+        "shapes (0), (1), (3), (0,3), (3,0), (2,2), (2,0,2), (1,2,2) of i32 x {quantile_axis_mut at q in {-0.5, -1e-300, 0, 0.5, 1, 1+ulp}, quantiles_axis_mut with empty / valid / partly invalid request lists, on every axis; min, max, argmin, argmax, mean, weighted_sum / sq_l2_dist / count_eq with itself}: the outcome (value, or which error, or a panic) is the same for the dynamic-dimension owned array, its static-dimension twin, a shared (ArcArray) handle, a column-major copy and a view",
+        eshapes.into_iter(),
+        |shape, lx| {
+            lx.nontrivial(true);
+            lx.single(|lx| {
+                let n: usize = shape.iter().product();
+                let base = ArrayD::from_shape_vec(IxDyn(shape), (0..n).map(|i| ((i * 7 + 3) % 5) as i32 - 2).collect()).unwrap();
+                let mut sets: Vec<(String, Vec<(String, String)>)> = Vec::new();
+                let mut o = Vec::new();
+                fallible(&|| base.clone(), &mut o);
+                sets.push(("dynamic owned".into(), o));
+                let mut o = Vec::new();
+                fallible(&|| base.clone().into_shared(), &mut o);
+                sets.push(("dynamic shared".into(), o));
+                let mut o = Vec::new();
+                fallible(&|| CowArray::from(base.view()), &mut o);
+                sets.push(("dynamic copy-on-write over a view".into(), o));
+                match shape.len() {
+                    1 => fallible_static!(Ix1, base, "1-D", sets),
+                    2 => fallible_static!(Ix2, base, "2-D", sets),
+                    _ => fallible_static!(Ix3, base, "3-D", sets),
+                }
+                let (ref_name, reference) = sets[0].clone();
+                for (name, o) in sets.iter().skip(1) {
+                    for ((call, want), (_, got)) in reference.iter().zip(o.iter()) {
+                        lx.check(want == got, "C20/outcome-depends-on-representation", || format!("shape {:?}: {} gives {} on the {} array but {} on the {} one", shape, call, want, ref_name, got, name));
+                    }
+                    lx.check(reference.len() == o.len(), "C20/outcome-count", || format!("shape {:?}: {} outcomes vs {}", shape, reference.len(), o.len()));
+                }
+                hash_of(&reference)
+            });
+        },
+    );
+    // operands that are views of one buffer against the same logical operands in separate buffers
+    let acases = nsmc::patterns::sequences(9, 3).map(|d| (d, 0u8)).chain((3..=5usize).flat_map(|m| nsmc::patterns::sequences(m, 3).flat_map(|d| (1..4u8).map(move |k| (d.clone(), k)))));
+    rep.run_sub(
+        "aliasing-operands",
+        "binary routines (count_eq, count_neq, sq_l2_dist, l1_dist, linf_dist, weighted_sum, weighted_mean, mean_abs_err, cross_entropy-free integer set) on two views of ONE buffer - a 3x3 matrix and its transpose (all 3^9 contents), buf[..n] and buf[..2n-1;2], overlapping windows, a buffer and its reversed view (all contents over 3 values, length 3..=5) - against the same logical operands copied into separate buffers: identical results",
+        acases,
+        |(digits, kind), lx| {
+            lx.nontrivial(digits.iter().any(|&d| d != digits[0]));
+            lx.single(|lx| {
+                let vi: Vec<i64> = digits.iter().map(|&d| [-2i64, 1, 5][d as usize]).collect();
+                let vf: Vec<f64> = digits.iter().map(|&d| [-1.5f64, 0.25, 3.0][d as usize]).collect();
+                macro_rules! both {
+                    ($a:expr, $b:expr, $af:expr, $bf:expr, $what:expr) => {{
+                        let (a, b) = ($a, $b);
+                        let (af, bf) = ($af, $bf);
+                        let (oa, ob) = (a.to_owned(), b.to_owned());
+                        let (oaf, obf) = (af.to_owned(), bf.to_owned());
+                        let aliased = guarded(|| format!("{:?} {:?}", (a.count_eq(&b), a.count_neq(&b), a.sq_l2_dist(&b), a.l1_dist(&b), a.linf_dist(&b), a.weighted_sum(&b), a.mean_abs_err(&b)), (af.sq_l2_dist(&bf), af.l1_dist(&bf), af.linf_dist(&bf), af.weighted_sum(&bf), af.weighted_mean(&bf), af.mean_sq_err(&bf))));
+                        let separate = guarded(|| format!("{:?} {:?}", (oa.count_eq(&ob), oa.count_neq(&ob), oa.sq_l2_dist(&ob), oa.l1_dist(&ob), oa.linf_dist(&ob), oa.weighted_sum(&ob), oa.mean_abs_err(&ob)), (oaf.sq_l2_dist(&obf), oaf.l1_dist(&obf), oaf.linf_dist(&obf), oaf.weighted_sum(&obf), oaf.weighted_mean(&obf), oaf.mean_sq_err(&obf))));
+                        lx.check(aliased == separate, "C20/aliasing-operands", || format!("{} over {:?}: (count_eq, count_neq, sq_l2, l1, linf, weighted_sum, mae | f64: sq_l2, l1, linf, weighted_sum, weighted_mean, mse) = {:?} on the views of one buffer but {:?} on separate copies", $what, vi, aliased, separate));
+                        hash_of(&aliased)
+                    }};
+                }
+                let (bi, bf) = (Array1::from(vi.clone()), Array1::from(vf.clone()));
+                let m = vi.len();
+                match kind {
+                    0 => {
+                        let (si, sf) = (Array2::from_shape_vec((3, 3), vi.clone()).unwrap(), Array2::from_shape_vec((3, 3), vf.clone()).unwrap());
+                        both!(si.view(), si.t(), sf.view(), sf.t(), "a 3x3 matrix and its transpose")
+                    }
+                    1 => {
+                        let n = (m + 1) / 2;
+                        both!(bi.slice(ndarray::s![..n]), bi.slice(ndarray::s![..2 * n - 1;2]), bf.slice(ndarray::s![..n]), bf.slice(ndarray::s![..2 * n - 1;2]), "buf[..n] and buf[..2n-1;2]")
+                    }
+                    2 => both!(bi.slice(ndarray::s![..m - 1]), bi.slice(ndarray::s![1..]), bf.slice(ndarray::s![..m - 1]), bf.slice(ndarray::s![1..]), "overlapping windows"),
+                    _ => both!(bi.view(), bi.slice(ndarray::s![..;-1]), bf.view(), bf.slice(ndarray::s![..;-1]), "a buffer and its reversed view"),
                 }
             });
         },
